@@ -104,6 +104,11 @@ def corpus():
     c['req-user-abort-peer-continues'] = ('requestor', [
         ('user', {'pdu': RQ_SPEC}), ('burst', enc(AC_SPEC)), ('user', {'pdu': ABORT_SU}),
         ('burst', enc(echo_rsp(1), echo_rsp(2), REL_RQ)), ('close',)])
+    # a header announcing a PDU of almost 4 GiB, of which only a few bytes ever come: nothing to act on, the
+    # provider just keeps waiting until the peer goes away
+    c['acc-giant-length-never-completed'] = ('acceptor', [
+        ('burst', enc(RQ_SPEC)), ('user', {'pdu': AC_SPEC}),
+        ('burst', [b'\x04\x00\xff\xff\xff\xf0' + b'\x00\x00\x00\x10\x01\x03' + b'ABCDEFGHIJKLMNOPQR']), ('close',)])
     c['req-release-collision'] = ('requestor', [
         ('user', {'pdu': RQ_SPEC}), ('burst', enc(AC_SPEC)), ('user', {'pdu': REL_RQ}),
         ('burst', enc(REL_RQ)), ('user', {'pdu': REL_RP}), ('burst', enc(REL_RP))])
